@@ -114,7 +114,7 @@ class Faults:
                 w.request_kill(j.node_vp, "fault:kill_node", True)
                 return
         ol = w.envk["op_lat"]
-        if ol > 0:
+        if ol > 0 and kind != "lock_acquire":  # (a lock poll every 50 ms is not slowed to seconds: no artificial starvation)
             # every operation takes a drawn time: other processes make *timed* progress inside
             # the windows between two operations of this one
             d = w.ch.delay(0.0, ol, "op_lat", steps=8)
